@@ -451,7 +451,13 @@ class Context:
             ename = ast.unparse(c.args[0])
             cond = I.truthy(self.eval_spec(I, kw['when'], env, contract.sidecar, pre, entry_env)) if 'when' in kw else I.fresh_bool('raises_ext')
             if I.branch(cond):
-                raise PyExc(VExc(ename, origin='contract of ' + q))
+                ex = VExc(ename, origin='contract of ' + q)
+                ex.t = I.fresh('exc', T.Obj)
+                if 'ensures' in kw:
+                    v = self.eval_spec(I, kw['ensures'], env, contract.sidecar, pre, entry_env, exc=ex)
+                    I.assume(I.truthy(v))
+                I.emit(q, [self_val] + list(args), kwargs, NONE)
+                raise PyExc(ex)
         self.apply_modifies(I, contract, env)
         res = NONE
         if contract.ret is not None and contract.ret.name != 'NoneT':
@@ -838,6 +844,10 @@ class Context:
         if n == 'DictStrStr':
             th = T.MapSS
             return I.alloc(HDict(VMap(I.fresh(name, th.sort), th, 'str', 'str')))
+        if n == 'DictObjObj':
+            m = VMap(I.fresh(name, T.MapOO.sort), T.MapOO, 'obj', 'obj')
+            m.vlabel = ty.args[0] if ty.args else ''
+            return I.alloc(HDict(m))
         if n == 'DictStrObj':
             th = T.MapSO
             m = VMap(I.fresh(name, th.sort), th, 'str', 'obj')
@@ -1397,6 +1407,19 @@ class Context:
             a = I.seq_of(I.ev(node.args[0], frame), node)
             b = I.seq_of(I.ev(node.args[1], frame), node)
             return VBool(a.th.Eq(a.t, b.t))
+        if fn == 'exc_get':
+            if sp is None or sp.exc is None:
+                raise Unsupported('exc_get() outside an exceptional postcondition', node)
+            e = sp.exc
+            if not hasattr(e, 't'):
+                e.t = I.fresh('exc', T.Obj)
+            nm = self.const_str(I, I.ev(node.args[0], frame))
+            return VOpaque(self.uf('getter.exc.' + nm, T.Obj, T.Obj)(e.t), 'excfield')
+        if fn == 'exc_arg':
+            if sp is None or sp.exc is None:
+                raise Unsupported('exc_arg() outside an exceptional postcondition', node)
+            k = VInt(I.as_int(I.ev(node.args[0], frame))).const()
+            return sp.exc.args[k] if k < len(sp.exc.args) else VOpaque(z3.Const('missing-excarg', T.Obj), 'missing')
         if fn == 'exc_origin':
             if sp is None or sp.exc is None:
                 raise Unsupported('exc_origin() outside an exceptional postcondition', node)
@@ -1603,7 +1626,10 @@ class Context:
         # termination of recursion
         if self.current is not None and contract.key == self.current.key and I.depth == 0:
             decs = contract.of('decreases')
-            if not decs:
+            if contract.of('partial'):
+                self.assumptions.add('termination of the recursion of %s is NOT proved (partial correctness): %s'
+                                     % (callee, contract.of('partial')[0].args[0].value))
+            elif not decs:
                 I.prove('%s:decreases-given:%s' % (I.cur_func, callee), 'termination', False, node)
             for c in decs:
                 m_new = I.as_int(self.eval_spec(I, c.args[0], env, contract.sidecar, pre, entry_env))
@@ -2003,8 +2029,8 @@ class Context:
         while work:
             dec = work.pop()
             rep.paths += 1
-            if rep.paths > self.max_paths:
-                rep.unsupported.append('path limit %d exceeded' % self.max_paths)
+            if rep.paths > int(contract.kw.get('max_paths', self.max_paths)):
+                rep.unsupported.append('path limit %d exceeded' % int(contract.kw.get('max_paths', self.max_paths)))
                 break
             I = Interp(self)
             I.decisions = dec
